@@ -10,7 +10,9 @@ import (
 	"fmt"
 	"math"
 	"os"
+	"reflect"
 	"time"
+	"unsafe"
 )
 
 var (
@@ -218,3 +220,91 @@ func Panics(f func()) (p bool) {
 func TimeNs(ns int64) time.Time { return time.Unix(0, ns).UTC() }
 
 func TimeUnix(sec, nsec int64) time.Time { return time.Unix(sec, nsec).UTC() }
+
+var timeType = reflect.TypeOf(time.Time{})
+
+// Havoc fills *p with an arbitrary value of its type: integers, booleans, floats, time.Time,
+// and structs/arrays of those (leaf names: name.Field, name[i]); pointers, slices, maps,
+// interfaces and strings are left zero.
+func Havoc(name string, p any) {
+	rv := reflect.ValueOf(p).Elem()
+	havoc(name, rv)
+}
+
+func settable(rv reflect.Value) reflect.Value {
+	if rv.CanSet() {
+		return rv
+	}
+	return reflect.NewAt(rv.Type(), unsafe.Pointer(rv.UnsafeAddr())).Elem()
+}
+
+func uints(name string, n int) []uint64 {
+	load()
+	raw, ok := vals[key(name)]
+	out := make([]uint64, n)
+	if !ok {
+		return out
+	}
+	var xs []json.Number
+	if err := json.Unmarshal(raw, &xs); err != nil {
+		panic(err)
+	}
+	for i := range out {
+		if i < len(xs) {
+			var u uint64
+			if _, err := fmt.Sscan(xs[i].String(), &u); err != nil {
+				var x int64
+				fmt.Sscan(xs[i].String(), &x)
+				u = uint64(x)
+			}
+			out[i] = u
+		}
+	}
+	return out
+}
+
+func havoc(name string, rv reflect.Value) {
+	rv = settable(rv)
+	if rv.Type() == timeType {
+		rv.Set(reflect.ValueOf(TimeNs(Int64(name))))
+		return
+	}
+	switch rv.Kind() {
+	case reflect.Int, reflect.Int8, reflect.Int16, reflect.Int32, reflect.Int64:
+		bits := rv.Type().Bits()
+		u := u64(name)
+		rv.SetInt(int64(u<<(64-bits)) >> (64 - bits))
+	case reflect.Uint, reflect.Uint8, reflect.Uint16, reflect.Uint32, reflect.Uint64, reflect.Uintptr:
+		bits := rv.Type().Bits()
+		u := u64(name)
+		rv.SetUint(u << (64 - bits) >> (64 - bits))
+	case reflect.Bool:
+		rv.SetBool(Bool(name))
+	case reflect.Float64, reflect.Float32:
+		rv.SetFloat(Float64(name))
+	case reflect.Struct:
+		for i := 0; i < rv.NumField(); i++ {
+			havoc(name+"."+rv.Type().Field(i).Name, rv.Field(i))
+		}
+	case reflect.Array:
+		ek := rv.Type().Elem().Kind()
+		switch ek {
+		case reflect.Int, reflect.Int8, reflect.Int16, reflect.Int32, reflect.Int64:
+			xs := uints(name, rv.Len())
+			bits := rv.Type().Elem().Bits()
+			for i := 0; i < rv.Len(); i++ {
+				settable(rv.Index(i)).SetInt(int64(xs[i]<<(64-bits)) >> (64 - bits))
+			}
+		case reflect.Uint, reflect.Uint8, reflect.Uint16, reflect.Uint32, reflect.Uint64:
+			xs := uints(name, rv.Len())
+			bits := rv.Type().Elem().Bits()
+			for i := 0; i < rv.Len(); i++ {
+				settable(rv.Index(i)).SetUint(xs[i] << (64 - bits) >> (64 - bits))
+			}
+		default:
+			for i := 0; i < rv.Len(); i++ {
+				havoc(fmt.Sprintf("%s[%d]", name, i), rv.Index(i))
+			}
+		}
+	}
+}
